@@ -7,7 +7,9 @@
    [asis] is the pinned tree, for which the properties are refuted below.
    The oracle is any function of (call number, image shown): outcome streams,
    stateful and nondeterministic testers are instances.  No bound on the
-   number of volumes, files or candidates. *)
+   number of volumes, files or candidates, nor on the nesting depth (volumes
+   inside files inside volumes ...): [minus_guids] / [remove_guid] take the
+   files out at every depth, each with everything nested in it. *)
 From Fiano Require Import Base.Bytes Gen.Consts Model.DxeCleaner Proofs.DxeCleanerProofs.
 Open Scope Z_scope.
 
@@ -62,11 +64,13 @@ Theorem C11_remove_unwind_identity : forall var pol pad p img nx img' u nx',
 Proof. exact remove_unwind. Qed.
 Print Assumptions C11_remove_unwind_identity.
 
-(* a tester that boots iff every GUID of req is present, on an image that
-   boots: every candidate outside req is reported (and by
+(* a tester that boots iff every GUID of req is present, on an image in which
+   every required GUID has an occurrence that is not nested inside a candidate
+   outside req (in particular the image boots; without nesting this is just
+   "the image boots"): every candidate outside req is reported (and by
    C11_final_matches_report gone), nothing of req is, the result boots *)
 Theorem C11_monotone_complete : forall req pol pred img, wf_image pred img = true ->
-  forall nx, boots req img = true -> cand_guids pred img <> [] ->
+  forall nx, req_safe pred req img = true -> cand_guids pred img <> [] ->
   exists c, dxe_clean fixed (boots_iff req) pol pred img nx = Ok c /\
     (forall g, In g (cand_guids pred img) -> ~ In g req -> In g (c_rem c)) /\
     (forall g, In g (c_rem c) -> ~ In g req) /\
@@ -109,44 +113,65 @@ Proof. exact asis_nil_undo_panic. Qed.
 Print Assumptions C11_asis_nil_undo_refuted.
 
 Theorem C11_monotone_complete_refuted :
-  boots [2] [[wF 0 1]; [wF 1 1; wF 2 2]] = true /\
+  req_safe is_driver [2] [[wF 0 1]; [wF 1 1; wF 2 2]] = true /\
   dxe_clean asis (boots_iff [2]) 255 is_driver [[wF 0 1]; [wF 1 1; wF 2 2]] 3 = Panic P_INDEX.
 Proof. exact asis_monotone_panic. Qed.
 Print Assumptions C11_monotone_complete_refuted.
 
+(* nesting: GUID 3 occurs in a nested and in the outer volume; after a rejected
+   removal only the nested volume is restored *)
+Theorem C11_nested_reject_refuted :
+  wf_image is_driver w_nest = true /\
+  exists c, dxe_clean asis (script_oracle []) 255 is_driver w_nest 5 = Ok c /\
+            c_rem c = [] /\ c_img c = [[wN 0 1 [[wF 1 3; wF 2 2]]]; [wF 4 5]].
+Proof. exact asis_nested_not_undone. Qed.
+Print Assumptions C11_nested_reject_refuted.
+
 (* ---- non-vacuity: concrete inputs meet the hypotheses ---- *)
 
 (* three volumes, a duplicated GUID, a PEIM and a free-form file that are not candidates
-   and whose UI names spell the GUIDs of candidates 1 and 2 *)
+   and whose UI names spell the GUIDs of candidates 1 and 2; driver 4 holds a nested
+   volume with drivers 6 and 7, driver 7 a further one with driver 3 *)
 Definition ex_img : image :=
-  [ [wF 0 1; wF 1 2; mkFile 2 9 fv_filetype_peim 64 (Some 1)];
+  [ [wF 0 1; wF 1 2; mkFile 2 9 fv_filetype_peim 64 (Some 1) []];
     [wF 3 1; wF 4 3];
-    [mkFile 5 8 2 40 (Some 2); wF 6 4; wF 7 2] ].
+    [mkFile 5 8 2 40 (Some 2) [];
+     wN 6 4 [[wF 7 6; wN 8 7 [[wF 9 3]]]];
+     wF 10 2] ].
 
 Example ex_wf : wf_image is_driver ex_img = true.
 Proof. vm_compute. reflexivity. Qed.
 
-(* accept, reject, accept, then a test error-free stream of rejects *)
+Example ex_cands : cand_guids is_driver ex_img = [1; 2; 1; 3; 4; 6; 7; 3; 2].
+Proof. vm_compute. reflexivity. Qed.
+
+(* accept, reject, accept, then rejects: both files of GUID 1 go *)
 Example ex_run :
-  exists c, dxe_clean fixed (script_oracle [t_accept; t_reject; t_accept]) 255 is_driver ex_img 8 = Ok c /\
-    c_rem c = [1; 1] /\
-    map (map f_guid) (c_img c) = [[2; 9]; [3]; [8; 4; 2]] /\ length (c_log c) = 10%nat.
+  exists c, dxe_clean fixed (script_oracle [t_accept; t_reject; t_accept]) 255 is_driver ex_img 11 = Ok c /\
+    c_rem c = [1; 1] /\ c_img c = minus_guids [1] ex_img /\ length (c_log c) = 16%nat.
 Proof. eexists. split; [vm_compute; reflexivity|]. repeat split; reflexivity. Qed.
 
 Example ex_cancel :
-  exists c, dxe_clean fixed (script_oracle [t_accept; t_cancel]) 255 is_driver ex_img 8 = Ok c /\
+  exists c, dxe_clean fixed (script_oracle [t_accept; t_cancel]) 255 is_driver ex_img 11 = Ok c /\
     c_rem c = [1] /\ c_img c = minus_guids [1] ex_img.
 Proof. eexists. split; [vm_compute; reflexivity|]. split; reflexivity. Qed.
 
+(* required: 2, 8 and the outer driver 4; the nested drivers 6, 7, 3 go, 4 stays *)
 Example ex_monotone :
-  boots [2; 8] ex_img = true /\
-  exists c, dxe_clean fixed (boots_iff [2; 8]) 255 is_driver ex_img 8 = Ok c /\
-    c_rem c = [1; 1; 3; 4] /\ map (map f_guid) (c_img c) = [[2; 9]; []; [8; 2]].
+  req_safe is_driver [2; 8; 4] ex_img = true /\
+  exists c, dxe_clean fixed (boots_iff [2; 8; 4]) 255 is_driver ex_img 11 = Ok c /\
+    c_rem c = [1; 1; 3; 6; 7; 3] /\
+    c_img c = [ [wF 1 2; mkFile 2 9 fv_filetype_peim 64 (Some 1) []]; [];
+                [mkFile 5 8 2 40 (Some 2) []; wN 6 4 [[]]; wF 10 2] ].
 Proof. split; [vm_compute; reflexivity|]. eexists. split; [vm_compute; reflexivity|]. split; reflexivity. Qed.
 
-(* Remove alone, pad mode, then the whole chain unwound *)
+(* a required GUID that only occurs inside a candidate outside the required set
+   does not meet the hypothesis (and that candidate cannot be removed) *)
+Example ex_req_nested_unsafe : req_safe is_driver [6] ex_img = false /\ boots [6] ex_img = true.
+Proof. split; vm_compute; reflexivity. Qed.
+
+(* Remove alone, pad mode, at two depths, then the whole chain unwound *)
 Example ex_remove_pad :
-  exists img' u nx', remove_run fixed 255 true (guid_pred 1) ex_img 8 = Ok (img', u, nx') /\
-    length u = 2%nat /\ nx' = 10 /\
-    map (map f_guid) img' = [[ff_guid; 2; 9]; [ff_guid; 3]; [8; 4; 2]] /\ unwind img' u = ex_img.
+  exists img' u nx', remove_run fixed 255 true (guid_pred 3) ex_img 11 = Ok (img', u, nx') /\
+    map fst u = [[2; 1; 0; 1; 0]; [1]]%nat /\ nx' = 13 /\ unwind img' u = ex_img.
 Proof. do 3 eexists. split; [vm_compute; reflexivity|]. repeat split; reflexivity. Qed.
